@@ -305,6 +305,15 @@ Labels(fr, Inc, p) ==
 (* run reported.  n = number of given transactions, m = prefix length of   *)
 (* the run whose fractions built ls.  Returns the set of failing clauses.  *)
 SeqSum(s, f(_)) == FoldLeft(LAMBDA acc, r : acc + f(r), 0, s)
+
+(* Known finding D8 (see known_findings.json): RP2 implements the to-date by stopping, in     *)
+(* instant order, at the first entry whose own date is past the bound.  When transactions     *)
+(* carry different UTC offsets an entry dated after the to-date can precede, by instant, an   *)
+(* entry dated on or before it; the later entry is then hidden although its own calendar date *)
+(* lies in the window.  Runs on such (history, to-date) pairs are judged as one class: a      *)
+(* failing view is reported under the clause K.C10.D8 (a listed finding, not a new violation) *)
+CutAmbiguous(E, A, to) ==
+  \E i, j \in A : i # j /\ E[i].t <= E[j].t /\ Day(E[i]) > to /\ Day(E[j]) <= to
 SetEq(s, S) == ToSet(s) = S /\ Len(s) = Cardinality(S)      \* sequence s lists set S without repetition
 
 ObsFails(C, E, n, m, ls, ln) ==
@@ -381,6 +390,10 @@ ObsFails(C, E, n, m, ls, ln) ==
                           <<"W.C09.later_transactions_exist", (k < m \/ to # MaxDay) /\ Cardinality(FSall) < Len(fr) /\ FSall # {}>>,
                           <<"W.C10.window_hides_and_shows_fractions", windowed /\ FSwin # {} /\ Cardinality(FSwin) < Len(fr)>>,
                           <<"W.C10.from_date_hides_history_that_counts", from # MinDay /\ Cardinality(FSwin) < Cardinality(FSall)>> } : cc[2]}}
-          IN f0 \cup f1 \cup f2 \cup f3 \cup f4 \cup f5 \cup f6 \cup f7 \cup f8 \cup w
+              views  == f1 \cup f2 \cup f3 \cup f4 \cup f5 \cup f6 \cup f7 \cup f8
+          IN f0 \cup w
+             \cup (IF to # MaxDay /\ CutAmbiguous(E, A, to)
+                   THEN (IF views # {} THEN {"K.C10.D8.to_date_cut_stops_at_first_entry_dated_past_the_bound"} ELSE {"W.C10.mixed_offsets_around_to_date"})
+                   ELSE views)
 
 =============================================================================
